@@ -171,6 +171,7 @@ class BridgeOverMux:
 
     def __init__(self, view):
         self.view = view
+        self.replay_id = f"c10.BridgeOverMux:{view}"
         if view == "bridge":
             self.module, self.prefix = "WbCsrBridge_Trace", "Br"
         else:
@@ -260,3 +261,7 @@ RULE = ("leg A: TLC explores WbCsrBridge_MC (ratios 1,2,4, every select mask, re
 
 def main(tier):
     return hwcheck.check("C10", tier, [Bridge(), BridgeOverMux("bridge"), BridgeOverMux("mux")], RULE)
+
+
+def replay(path):
+    return hwcheck.replay(path, [Bridge(), BridgeOverMux("bridge"), BridgeOverMux("mux")])
